@@ -26,6 +26,21 @@ TEXT = {
  "C13": ("exploration", "run-sim", "5.C13",
          "Hooks and steps at every level set / shadow / delete / probe context attributes and register cleanups (plain, args, layer=, generator fixtures, failing setup) with some cleanups raising; every probe is compared with a dict-stack model and the cleanup log with the LIFO exactly-once model at the scope boundaries the acceptor tracks; execute_steps must restore text/table.",
          "history machine driving Context directly is not built yet: histories are those reachable through real runs"),
+ "C14": ("exploration", "run-sim", "5.C14",
+         "After every simulated run a census of the real model is compared with (a) the text printed by SummaryReporter.end(), parsed for all five formats, (b) SummaryCollector fed with the same features and (c) all format functions applied to the reporter's final tables; listed failing/errored scenarios must equal the census sets. Sampled worlds covering untested remainders, hook errors, dry-run, rules, outline rows and per-scenario background copies.",
+         "the summary parser is the oracle's own (regex over the documented line shapes); durations are ignored"),
+ "C15": ("exploration", "run-sim", "5.C15",
+         "Two recording formatters (first and last position) around random subsets/orders of the built-in formatters: event grammar, agreement between recorders, one match+result per step the model says was processed; JSON re-read with json.loads and compared element by element with the census (status on its own element, tables, doc-strings) and read back through behave.json_parser; plain output re-parsed step by step. No built-in formatter may raise.",
+         "progress formatters are only checked for not raising; pretty output is not re-parsed"),
+ "C16": ("exploration", "run-sim", "5.C16",
+         "--junit worlds with names, messages and captured output drawn from a hostile alphabet (XML metacharacters, ']]>', C0/C1 controls, astral characters, ANSI escapes): every TESTS-*.xml must parse with expat, its test cases must be the feature's scenarios with their final status, counters must equal the numbers of entries, failed/errored cases must carry an entry naming the step or hook.",
+         "names in feature files cannot carry control characters (line based format); lone surrogates are not generated"),
+ "C17": ("exploration", "run-sim (two-run histories)", "5.C17",
+         "Run 1 writes the rerun file (sometimes over a stale one) under step failures, exceptions, undefined steps and hook errors; its content must equal the census of failed/error-class scenarios in run order, or the file must be gone when there are none. Run 2 is given '@file' with every fault removed and must execute exactly the listed scenarios and skip the rest.",
+         "second run reuses the model's location selection (C10) as oracle"),
+ "C18": ("exploration", "run-sim", "5.C18",
+         "Steps, step hooks and nested steps print unique markers to stdout/stderr/logging under all 8 capture switch combinations and every outcome class (incl. KeyboardInterrupt, step-hook errors): the simulator-owned TTYs record each chunk with the callback active at that moment; probes at every callback check the identity of sys.stdout/sys.stderr and the root logger's handlers/level; failure reports must contain exactly the markers of their own scenario; with a switch off the markers must arrive on the TTY in order.",
+         "in-process TTY objects stand for the real streams; logging-filter worlds only check foreign markers"),
 }
 
 def main():
